@@ -184,7 +184,7 @@ func (s printIdx) run(e *env) bool {
 	if a, isArr := e.arrs[s.x]; isArr {
 		e.println(a[p])
 	} else {
-		e.println(string(e.strs[s.x][p]))
+		e.println(string([]byte{e.strs[s.x][p]}))
 	}
 	return true
 }
@@ -486,6 +486,23 @@ func (g *gen) invalidWide(x string) expr {
 // validIndex draws an index that is valid for x now, in one of the two forms.
 func (g *gen) validIndex(x string) int64 {
 	n := int64(g.e.length(x))
+	if sv, isStr := g.e.strs[x]; isStr && !isASCII(sv) {
+		// a string with multi-byte characters: lengths and indices count bytes. Only
+		// its ASCII bytes are read (a lone byte of a multi-byte character prints
+		// differently on the two targets, which is not this property's business);
+		// they sit at the end of every such string in the pool.
+		var ps []int64
+		for i := 0; i < len(sv); i++ {
+			if sv[i] < 0x80 {
+				ps = append(ps, int64(i))
+			}
+		}
+		p := ps[len(ps)-1-g.r.Intn(min(3, len(ps)))]
+		if g.r.Chance(1, 2) {
+			return p - n
+		}
+		return p
+	}
 	p := int64(g.r.Intn(int(n)))
 	// bias to the last positions (the ones appends created) and to position 0
 	switch g.r.Intn(4) {
@@ -500,6 +517,15 @@ func (g *gen) validIndex(x string) int64 {
 		return p - n // the negative form of the same position
 	}
 	return p
+}
+
+func isASCII(s string) bool {
+	for i := 0; i < len(s); i++ {
+		if s[i] >= 0x80 {
+			return false
+		}
+	}
+	return true
 }
 
 func (g *gen) invalidIndex(x string) int64 {
@@ -567,7 +593,8 @@ func GenerateFor(r *core.Rng, maxOps int, wantOOB bool, target string) *Program 
 	}
 	if r.Chance(1, 2) {
 		// lengths 0, 4 and 8 too: data-segment padding and alignment boundaries
-		s := declStr{"s0", core.Pick(r, []string{"Hello", "a", "ferret", "xyzzy plugh", "Zq", "abcd", "12345678", "", "wxyz", "qrs"})}
+		s := declStr{"s0", core.Pick(r, []string{"Hello", "a", "ferret", "xyzzy plugh", "Zq", "abcd", "12345678", "", "wxyz", "qrs",
+			"h\u00e9llo", "\u20acabcdef", "na\u00efve-\U0001F600-xyz", "\u00fc\u00f6q"})}
 		run(s)
 		g.shape = append(g.shape, "str")
 	}
@@ -768,7 +795,7 @@ func GenerateFor(r *core.Rng, maxOps int, wantOOB bool, target string) *Program 
 				}
 				g.litLen[a] = L
 			case 3: // read a string byte by byte with the counter (and from the end)
-				if sv, ok := g.e.strs["s0"]; ok && len(sv) > 0 {
+				if sv, ok := g.e.strs["s0"]; ok && len(sv) > 0 && isASCII(sv) {
 					w.n = int64(len(sv))
 					w.body = []stmt{printIdx{g.tag(), "s0", loopVar{v}}, printIdx{g.tag(), "s0", negLoop{v}}}
 				} else {
